@@ -253,7 +253,15 @@ std::unique_ptr<Built> build(TrackOrder o, unsigned seed, bool nomat = false)
     po.track_order = o;
     po.rng_seed = seed * 7919u + 13u;
     po.max_events = 4;
-    verif::build_problem(b->prob, po);
+    try
+    {
+        verif::build_problem(b->prob, po);
+    }
+    catch (std::exception const& e)
+    {
+        std::cerr << "set-up of the hand-built problem failed: " << e.what() << std::endl;
+        std::exit(3);
+    }
     if (nomat)
     {
         // the world volume has NO material: a track leaving the inner box takes the error
@@ -342,12 +350,12 @@ int run_state(std::string const& out_path, unsigned seed, int nrand)
         {
             CoreState<MemSpace::host> state(core, StreamId{0}, n);
             CoreState<MemSpace::host> state2(core, StreamId{0}, n);
-            b->seq->begin_run(core, state);
             out({{"e", "Construct"}, {"order", to_cstring(o)}, {"n", int(n)}, {"na", int(na)},
                  {"ts", slots_json(state.ref())}, {"ts2", slots_json(state2.ref())},
                  {"offsize", int(state.action_thread_offsets().size())}, {"hasrange", state.has_action_range()},
                  {"sorts", sacts}});
             ++nrec;
+            b->seq->begin_run(core, state);
             if (sacts.empty())
                 continue;
             // seeded per-slot arrays written into the real state, then the real action(s)
